@@ -128,9 +128,14 @@ def log2_axioms(formulas):
     ax.append(z3.Implies(x >= 1, I.LOG2(x) >= 0))
     ax.append(z3.Implies(z3.And(x > 0, x <= 1), I.LOG2(x) <= 0))
     ax.append(z3.Implies(x >= 2, I.LOG2(x) >= 1))
+    ax.append(z3.Implies(x == 1, I.LOG2(x) == 0))
+    ax.append(z3.Implies(x > 1, I.LOG2(x) > 0))
+    ax.append(z3.Implies(z3.And(x > 0, x < 1), I.LOG2(x) < 0))
   for a, b in itertools.combinations(ts, 2):
     ax.append(z3.Implies(z3.And(a > 0, a <= b), I.LOG2(a) <= I.LOG2(b)))
     ax.append(z3.Implies(z3.And(b > 0, b <= a), I.LOG2(b) <= I.LOG2(a)))
+    ax.append(z3.Implies(z3.And(a > 0, a < b), I.LOG2(a) < I.LOG2(b)))
+    ax.append(z3.Implies(z3.And(b > 0, b < a), I.LOG2(b) < I.LOG2(a)))
   return ax
 
 
